@@ -534,17 +534,20 @@ def SObj.defineX (o : SObj) (name : List Nat) : Res :=
 /-- "zzz": what the harness's replacement `String.prototype.toString = function(){return "zzz"}` returns -/
 def sZZZ : List Nat := [122, 122, 122]
 
-/-- the `this` of `r.m(…)` when String.prototype.toString has been replaced by a function returning `t`: the member
-    expression boxes a primitive string (cmpl_evaluate_expression.go), the call passes that wrapper, and
-    `call.This.string()` of a String OBJECT goes through DefaultValue → the replaced toString.  A String object
-    receiver is converted the same way.  `none` = TypeError (undefined / null base) -/
-def memberThisOverridden (E : Env) (t : List Nat) : Recv → Option Recv
+/-- the `this` of a method call `r.m(…)` (cmpl_evaluate_expression.go call expression, since fix fc1155e): the
+    property reference remembers a primitive base and the call passes it as it is (propertyReference.thisValue);
+    the wrapper made by objectCoerce is used only to look the method up.  `none` = TypeError (undefined / null base) -/
+def memberCallThis : Recv → Option Recv
   | .val .undef => none
   | .val .null => none
-  | .val (.str _) => some (.obj t)         -- boxed, then converted through the replaced toString
-  | .val16 _ => some (.obj t)
+  | r => some r
+
+/-- the same when String.prototype.toString has been replaced by a function returning `t`: a primitive receiver is
+    untouched (`call.This.string()` of a string value calls nothing); a String OBJECT receiver is converted by
+    DefaultValue(String), i.e. by the replaced toString -/
+def memberThisOverridden (t : List Nat) : Recv → Option Recv
   | .strObj _ => some (.obj t)
-  | r => memberThis E r
+  | r => memberCallThis r
 
 /-- the string a receiver of these observers wraps -/
 def recvString (E : Env) : Recv → List Nat := thisString E
